@@ -20,6 +20,8 @@ def run(ctx):
     ctx.rule("R14.o", "Parameterized.__getstate__, interpreted abstractly, saves every ordinary attribute and the complete per-instance value store -- entries that are still the class default object included (that entry pins a constant to the instance; a copy without it follows later class-level sets)", floor=1)
     ctx.rule("R14.v", "instance or class is decided by identity: no boolean-context use (if / and / or / not / conditional expression) of the namespace's instance (`self_.self` or a local alias) in "
                       "class Parameters, nor of `obj` in the descriptor methods of Parameter types -- an instance of a class defining __len__ / __bool__ may be falsy and is still an instance", floor=40)
+    ctx.rule("R14.w", "namespace model (shared with R13.h), linear and diamond hierarchies: `.param[name]` is the Parameter that governs attribute access -- the constructor pins constants and "
+                      "edit_constant unlocks through that lookup, so a lookup that finds another class's (non-constant) Parameter leaves the constant unguarded", floor=1)
     ctx.rule("R14.a", "in Parameter.__set__ every value store is control-dependent on the constant/readonly test; no store lies on a path where "
                       "self.readonly holds, nor where the parameter is constant and the instance is initialized; on that arm the only "
                       "non-raising continuation is the identity case", floor=5)
@@ -321,3 +323,5 @@ def run(ctx):
     ctor_model.report(ctx, "C14", "R14.k")
     from checks.shared import instance_tested_by_identity
     instance_tested_by_identity(ctx, "R14.v")
+    from checks import namespace_model
+    namespace_model.report(ctx, "R14.w")
